@@ -554,19 +554,85 @@ def run_wedge_choices(shard):
     return acc
 
 
+def _star_block(elements, coords, wedge):
+    """V2000 block: atom 1 = centre, atoms 2.. = neighbours; wedge = (neighbour index 2.., stereo code 1 up / 6 down)"""
+    lines = ['', '  star', '', '%3d%3d  0  0  0  0  0  0  0  0999 V2000' % (len(elements), len(elements) - 1)]
+    for (x, y), el in zip(coords, elements):
+        lines.append('%10.4f%10.4f%10.4f %-3s 0  0  0  0  0  0  0  0  0  0  0  0' % (x, y, 0, el))
+    for i in range(2, len(elements) + 1):
+        lines.append('%3d%3d%3d%3d' % (1, i, 1, wedge[1] if wedge[0] == i else 0))
+    lines.append('M  END')
+    return '\n'.join(lines)
+
+
+def run_wedge_geometry(shard):
+    """hand-made drawings of one centre: three neighbours (Y, shallow Y, exact T, beyond T, fan) and four neighbours (cross, skewed, two collinear) at several rotations and
+    scales x every wedge x up/down; the library reading of the MolBlock must be the stereoisomer RDKit reads from the same block"""
+    import io
+    import math
+    from rdkit import Chem, RDLogger
+    from chython.files import SDFRead
+    RDLogger.DisableLog('rdApp.*')
+    acc = Acc()
+    shapes = []
+    for ang in (60, 30, 10, 3, 0, -3, -10, -30, -60):
+        a = math.radians(ang)
+        shapes.append(('three neighbours, side bonds %d deg above the horizontal, stem down' % ang, ['C', 'F', 'Cl', 'Br'],
+                       [(-math.cos(a), math.sin(a)), (math.cos(a), math.sin(a)), (0.0, -1.0)]))
+    for name, angs in (('cross', (90, 0, 270, 180)), ('skewed cross', (100, 20, 250, 170)), ('two collinear + two on one side', (180, 0, 240, 300)), ('three in a half plane', (150, 90, 30, 270)),
+                       ('zigzag ring-like', (150, 30, 210, 330))):
+        shapes.append(('four neighbours, %s' % name, ['C', 'F', 'Cl', 'Br', 'I'], [(math.cos(math.radians(x)), math.sin(math.radians(x))) for x in angs]))
+    for name, els, nb in shapes:
+        for rot in (0, 37, 90, 180, 233):
+            for scale in (1.0, 1.54, 40.0):
+                r = math.radians(rot)
+                pts = [(0.0, 0.0)] + [(scale * (x * math.cos(r) - y * math.sin(r)), scale * (x * math.sin(r) + y * math.cos(r))) for x, y in nb]
+                for i in range(2, len(els) + 1):
+                    for code in (1, 6):
+                        acc.states += 1
+                        acc.transitions += 2
+                        blk = _star_block(els, pts, (i, code))
+                        rd = Chem.MolFromMolBlock(blk)
+                        if rd is None:
+                            continue
+                        exp = Chem.MolToSmiles(rd)
+                        try:
+                            got = list(SDFRead(io.StringIO(blk + '\n$$$$\n')))
+                        except Exception as e:
+                            acc.fail('reading a one-centre drawing raised %s :: %s' % (type(e).__name__, name), mol=name, wedge=[i, code], rotation=rot, scale=scale)
+                            continue
+                        if len(got) != 1:
+                            acc.fail('one-centre drawing skipped :: %s' % name, mol=name, wedge=[i, code], rotation=rot, scale=scale)
+                            continue
+                        same = rd_same_text(str(got[0]), exp)
+                        if '@' not in exp:
+                            acc.ood['rdkit derives no configuration from this drawing'] += 1
+                            if '@' in str(got[0]):
+                                acc.outcomes['library assigns a configuration where RDKit assigns none'] += 1
+                            continue
+                        acc.outcomes[bool(same)] += 1
+                        if same is False:
+                            acc.fail('configuration read from a one-centre drawing differs from RDKit :: %s' % name, mol=name, wedge=[i, code], rotation=rot, scale=scale, got=str(got[0]), expected=exp)
+    acc.sample({'shapes': [s[0] for s in shapes[:5]], 'rotations': [0, 37, 90, 180, 233], 'scales': [1.0, 1.54, 40.0]})
+    return acc
+
+
 def plan(tier, seed):
     return [Stage('sign permutations', run_permutations, [0], '10 tetrahedral centres x all neighbour orders (24/6, explicit H at every position, 3-subsets) x both signs; cis/trans and allenes x every end choice'),
             Stage('spellings vs RDKit', run_spellings, [(k, 64, tier) for k in range(64)], 'centres, alkenes, ring/spiro stereo family, stereo corpus: every own traversal (<=7 atoms; <=2 / <=1 deviations above) + RDKit roots x renumberings'),
             Stage('stereoisomer identity and stereogenicity', run_isomers, [0], '12 templates x all 2^s label combinations x all pairs vs RDKit; C(a)(b)(c)(d) and abC=Ccd over substituent alphabets'),
             Stage('wedge round trip', run_wedges, [(k, 32, tier) for k in range(32)], 'own wedge map -> add_wedge restores signs on RDKit 2D coordinates; RDKit reads the written MolBlock as the same stereoisomer'),
             Stage('every wedge choice', run_wedge_choices, [('allene', tier), ('tetra', tier)],
-                  'every heavy substituent x up/down at 10 allenes (geometric two-class oracle) and at the centres of 14 molecules (+corpus in thorough) vs the configuration RDKit derives from the same drawing')]
+                  'every heavy substituent x up/down at 10 allenes (geometric two-class oracle) and at the centres of 14 molecules (+corpus in thorough) vs the configuration RDKit derives from the same drawing'),
+            Stage('wedge geometry grid', run_wedge_geometry, [0], '14 one-centre drawings (3 neighbours from Y over exact T to fan; 4 neighbours: cross, skewed, collinear pairs, half plane) x 5 rotations x 3 scales x every wedge x up/down vs RDKit')]
 
 
 def replay(rec):
     key = rec['key']
     if 'permutation' in key or 'involution' in key or 'flip' in key or 'direction' in key or 'translation raised' in key or 'label lost' in key:
         a = run_permutations(0)
+    elif 'one-centre drawing' in key:
+        a = run_wedge_geometry(0)
     elif 'allene' in key and 'wedge' in key:
         a = run_wedge_choices(('allene', 'quick'))
     elif 'from a wedge differs' in key or 'on a tetrahedral centre raised' in key:
